@@ -875,6 +875,80 @@ func openAndRead1(comp, dir string, keys [][]byte, closers *[]func()) (opened bo
 }
 
 const kfF19 = "F19-store-open-trusts-last-clog-entry"
+const kfF30 = "F30-store-clog-entry-txsize-unchecked"
+
+// clogTxSizeKnown: some commit-log entry other than the last one (the one store.Open validates against the tx
+// log) announces a transaction larger than 16 KiB (the fixture's largest possible tx record, maxTxSize, is 2.4 KiB):
+// every reader of that tx allocates a buffer of that size. The commit log is mapped the way multiapp does it:
+// chunk k holds the logical range [k*fileSize, k*fileSize+len(payload_k)).
+func clogTxSizeKnown(img *dirImage, override map[string][]byte, deleted map[string]bool) bool {
+	type chunk struct {
+		id int
+		pl []byte
+	}
+	var chunks []chunk
+	seen := map[string]bool{}
+	consider := func(n string, b []byte) {
+		if !strings.HasPrefix(n, "commit/") || seen[n] {
+			return
+		}
+		seen[n] = true
+		var id int
+		if _, err := fmt.Sscanf(strings.TrimSuffix(filepath.Base(n), filepath.Ext(n)), "%d", &id); err != nil {
+			return
+		}
+		_, pl := payloadOf(b)
+		chunks = append(chunks, chunk{id, pl})
+	}
+	for n, b := range override {
+		consider(n, b)
+	}
+	for _, n := range img.names {
+		if !deleted[n] {
+			consider(n, img.files[n])
+		}
+	}
+	if len(chunks) == 0 {
+		return false
+	}
+	sort.Slice(chunks, func(i, j int) bool { return chunks[i].id < chunks[j].id })
+	fileSize := 2048
+	lastName := fmt.Sprintf("commit/%08d.txi", chunks[len(chunks)-1].id)
+	lb, ok := override[lastName]
+	if !ok {
+		lb = img.files[lastName]
+	}
+	if m := innermostMetaLevel(lb, 1); m != nil {
+		if v, ok := m["FILE_SIZE"]; ok && len(v) >= 8 {
+			if fs := int64(binary.BigEndian.Uint64(v)); fs > 0 && fs < 1<<31 {
+				fileSize = int(fs)
+			}
+		}
+	}
+	read := func(off, n int) []byte {
+		for _, c := range chunks {
+			lo := c.id * fileSize
+			if off >= lo && off+n <= lo+len(c.pl) {
+				return c.pl[off-lo : off-lo+n]
+			}
+		}
+		return nil
+	}
+	last := chunks[len(chunks)-1]
+	total := last.id*fileSize + len(last.pl)
+	n := total / 44
+	for i := 0; i < n-1; i++ {
+		e := read(i*44, 44)
+		if e == nil {
+			continue
+		}
+		if sz := binary.BigEndian.Uint32(e[8:]); sz > 16<<10 {
+			return true
+		}
+	}
+	return false
+}
+
 const kfF21 = "F21-aht-dataat-trusts-commit-log-size"
 const kfF23 = "F23-tbtree-root-node-size-unchecked"
 const kfF17 = "F17-limits-in-commit-log-header-trusted"
@@ -882,7 +956,10 @@ const kfF17b = "F17b-unbounded-limits-in-commit-log-header"
 const kfF22 = "F22-txlog-vlen-unchecked"
 
 // innermostMeta returns the client metadata (singleapp -> multiapp -> client) of a chunk file.
-func innermostMeta(b []byte) map[string][]byte {
+func innermostMeta(b []byte) map[string][]byte { return innermostMetaLevel(b, 2) }
+
+// innermostMetaLevel unwraps `levels` WRAPPED_METADATA layers (1 = the multiapp block, 2 = the client's).
+func innermostMetaLevel(b []byte, levels int) map[string][]byte {
 	if len(b) < 4 {
 		return nil
 	}
@@ -891,7 +968,7 @@ func innermostMeta(b []byte) map[string][]byte {
 		return nil
 	}
 	cur := b[4 : 4+mLen]
-	for depth := 0; depth < 2; depth++ {
+	for depth := 0; depth < levels; depth++ {
 		ref := classifyAppMetadata(cur)
 		if ref.known != "" {
 			return nil
@@ -1316,6 +1393,11 @@ func diskProbes() []vk.Probe {
 	}}, {ID: kfF17, Present: func() (bool, string) {
 		return storeProbe("store.Open with MAX_KEY_LEN := 1<<22 in the header of commit/00000000.txi (MAX_TX_ENTRIES stays 16)", "commit/00000000.txi",
 			setField(">MAX_KEY_LEN.val", 1<<22), nil)
+	}}, {ID: kfF30, Present: func() (bool, string) {
+		return storeProbe("store.Open + ReadTx(2) with the txSize of commit-log entry 2 (not the last one) set to 0x04000000", "commit/00000000.txi",
+			setField("clog[1].txSize", 0x04000000), func(st *store.ImmuStore) {
+				st.ReadTx(2, false, store.NewTx(64, 256))
+			})
 	}}, {ID: kfF17b, Present: func() (bool, string) {
 		return storeProbe("store.Open with MAX_TX_ENTRIES := 1<<16 in the header of commit/00000000.txi", "commit/00000000.txi",
 			setField(">MAX_TX_ENTRIES.val", 1<<16), nil)
@@ -1480,6 +1562,16 @@ func TestOpenCorruptedDirectories(t *testing.T) {
 		known := ""
 		for e := 0; e < nEdits; e++ {
 			name := img.names[rapid.IntRange(0, len(img.names)-1).Draw(rt, "file")]
+			if comp == "store" && rapid.IntRange(0, 3).Draw(rt, "preferLogs") == 0 {
+				// the commit log and the tx log carry most of the structure: pick them more often
+				var logs []string
+				for _, n := range img.names {
+					if strings.HasPrefix(n, "commit/") || strings.HasPrefix(n, "tx/") {
+						logs = append(logs, n)
+					}
+				}
+				name = logs[rapid.IntRange(0, len(logs)-1).Draw(rt, "logFile")]
+			}
 			fileOp := rapid.SampledFrom([]string{"mutate", "mutate", "mutate", "mutate", "mutate", "mutate", "delete", "empty", "headerOnly", "cloneAsNext"}).Draw(rt, "fileOp")
 			data := img.files[name]
 			if e > 0 {
@@ -1530,6 +1622,23 @@ func TestOpenCorruptedDirectories(t *testing.T) {
 					desc += fmt.Sprintf("%s: shrink %s to %d", name, f.name, nv)
 					break
 				}
+				var clogFields []field
+				for _, f := range l.f {
+					if strings.HasPrefix(f.name, "clog[") && f.kind != kHash {
+						clogFields = append(clogFields, f)
+					}
+				}
+				if len(clogFields) > 0 && rapid.IntRange(0, 2).Draw(rt, "clogEntry") == 0 {
+					// a commit-log entry (any position) with a hostile offset or size
+					f := clogFields[rapid.IntRange(0, len(clogFields)-1).Draw(rt, "clogField")]
+					b := l.clone()
+					hs := hostileValues(f.n, getBE(b[f.off:f.off+f.n]), len(b)-f.off-f.n)
+					h := hs[rapid.IntRange(0, len(hs)-1).Draw(rt, "clogHostile")]
+					putBE(b[f.off:f.off+f.n], h.v)
+					override[name] = b
+					desc += fmt.Sprintf("%s: set %s=%s", name, f.name, h.class)
+					break
+				}
 				b, d := mutateOnce(rt, l, l.clone(), fmt.Sprintf("e%d.", e))
 				override[name] = b
 				desc += name + ": " + d
@@ -1541,45 +1650,64 @@ func TestOpenCorruptedDirectories(t *testing.T) {
 				}
 			}
 		}
+		// every known-finding class the corruption belongs to (a fixed one no longer hides the others)
+		var knowns []string
+		add := func(k string) {
+			if k != "" {
+				knowns = append(knowns, k)
+			}
+		}
+		add(known)
 		for n := range override {
 			if comp == "store" && strings.HasPrefix(n, "commit/") && !bytesEqualPayloadOf(img.files[n], override[n]) {
-				known = kfF19
+				add(kfF19)
+				break
 			}
 		}
 		for n := range deleted {
 			if comp == "store" && strings.HasPrefix(n, "commit/") {
-				known = kfF19
+				add(kfF19)
+				break
 			}
 		}
-		if known == "" && (comp == "store" || comp == "tbtree") {
-			known = limitsKnown(img, override)
+		if comp == "store" && clogTxSizeKnown(img, override, deleted) {
+			add(kfF30)
 		}
-		if known == "" && comp == "store" && txLogMetadataKnown(img, override, fx.txFields) {
-			known = kfF4
+		if comp == "store" || comp == "tbtree" {
+			add(limitsKnown(img, override))
 		}
-		if known == "" && comp == "store" && vLenKnown(img, override, fx.txFields) {
-			known = kfF22
+		if comp == "store" && txLogMetadataKnown(img, override, fx.txFields) {
+			add(kfF4)
 		}
-		if known == "" {
-			for n, b := range override {
-				isIdxCommit := comp == "tbtree" && strings.HasPrefix(n, "commit/") || comp == "store" && strings.HasPrefix(n, "index") && strings.Contains(n, "/commit/")
-				if isIdxCommit && !bytesEqualPayloadOf(img.files[n], b) {
-					known = kfF23
-				}
+		if comp == "store" && vLenKnown(img, override, fx.txFields) {
+			add(kfF22)
+		}
+		for n, b := range override {
+			isIdxCommit := comp == "tbtree" && strings.HasPrefix(n, "commit/") || comp == "store" && strings.HasPrefix(n, "index") && strings.Contains(n, "/commit/")
+			if isIdxCommit && !bytesEqualPayloadOf(img.files[n], b) {
+				add(kfF23)
+				break
 			}
 		}
-		if known == "" && comp == "aht" && ahtSizeKnown(img, override, deleted, "") {
-			known = kfF21
+		if comp == "aht" && ahtSizeKnown(img, override, deleted, "") {
+			add(kfF21)
 		}
-		if known == "" && comp == "store" && ahtSizeKnown(img, override, deleted, "aht/") {
-			known = kfF21
+		if comp == "store" && ahtSizeKnown(img, override, deleted, "aht/") {
+			add(kfF21)
 		}
-		if known == "" && multiappFileSizeKnown(img, override, deleted, strings.HasPrefix(comp, "singleapp")) {
-			known = kfF20
+		if multiappFileSizeKnown(img, override, deleted, strings.HasPrefix(comp, "singleapp")) {
+			add(kfF20)
 		}
 		c.Descf("%s | %s", comp, desc)
 		c.Label("component-" + comp)
-		if excludedKnown(c, known, known != "") {
+		skip := false
+		for _, k := range knowns {
+			if excludedKnown(c, k, true) {
+				skip = true
+				break
+			}
+		}
+		if skip {
 			return
 		}
 		dir := vk.Dir()
